@@ -320,4 +320,120 @@ theorem ofCidK_eq (k : Kind) (c : Cid) :
       RowNamespaceDataId.decode idOfRnd
       decode_rnd_parse c
 
+theorem read_toBytes_row (d : Bytes) (hd : d.length = 10) :
+    Cid.read (Cid.toBytes ⟨1, 30720, 30721, d⟩) = some ⟨1, 30720, 30721, d⟩ := by
+  have e1 : varint 1 = [1] := by decide
+  have e2 : varint 30720 = [0x80, 0xF0, 0x01] := by decide
+  have e3 : varint 30721 = [0x81, 0xF0, 0x01] := by decide
+  have e4 : varint 10 = [10] := by decide
+  simp only [Cid.toBytes, hd, e1, e2, e3, e4, List.cons_append, List.nil_append]
+  simp [Cid.read, readVarint, readVarintGo, hd]
+  rw [← hd]; exact List.take_length
+
+theorem read_toBytes_sample (d : Bytes) (hd : d.length = 12) :
+    Cid.read (Cid.toBytes ⟨1, 30736, 30737, d⟩) = some ⟨1, 30736, 30737, d⟩ := by
+  have e1 : varint 1 = [1] := by decide
+  have e2 : varint 30736 = [0x90, 0xF0, 0x01] := by decide
+  have e3 : varint 30737 = [0x91, 0xF0, 0x01] := by decide
+  have e4 : varint 12 = [12] := by decide
+  simp only [Cid.toBytes, hd, e1, e2, e3, e4, List.cons_append, List.nil_append]
+  simp [Cid.read, readVarint, readVarintGo, hd]
+  rw [← hd]; exact List.take_length
+
+theorem read_toBytes_rnd (d : Bytes) (hd : d.length = 39) :
+    Cid.read (Cid.toBytes ⟨1, 30752, 30753, d⟩) = some ⟨1, 30752, 30753, d⟩ := by
+  have e1 : varint 1 = [1] := by decide
+  have e2 : varint 30752 = [0xA0, 0xF0, 0x01] := by decide
+  have e3 : varint 30753 = [0xA1, 0xF0, 0x01] := by decide
+  have e4 : varint 39 = [39] := by decide
+  simp only [Cid.toBytes, hd, e1, e2, e3, e4, List.cons_append, List.nil_append]
+  simp [Cid.read, readVarint, readVarintGo, hd]
+  rw [← hd]; exact List.take_length
+
+/-- ids whose fields have the Rust types (u64 height, u16 indices, validated namespace); the
+    height may be 0 -/
+def WellTyped (id : Id) : Prop :=
+  id.height < 2 ^ 64 ∧
+  (if id.kind.hasRow then id.row < 2 ^ 16 else id.row = 0) ∧
+  (if id.kind.hasCol then id.col < 2 ^ 16 else id.col = 0) ∧
+  (if id.kind.hasNs then Lumina.Spec.C14.validRaw id.ns = true else id.ns = [])
+
+/-- the model's observation of construct → encode → decode → CID → back → re-read -/
+def obsNew (id : Id) : NewObs :=
+  match newK id with
+  | .error _ => .err
+  | .ok (bytes, cid) =>
+    .ok bytes ((obsDecode (decodeK id.kind bytes)).map Prod.fst) (cid.map cidObs)
+      (cid.bind (fun c => obsCid (ofCidK id.kind c)))
+      (cid.bind (fun c => (Cid.read c.toBytes).bind (fun c' => obsCid (ofCidK id.kind c'))))
+
+theorem validRaw_length (ns : Bytes) (h : Lumina.Spec.C14.validRaw ns = true) : ns.length = 29 := by
+  simp only [Lumina.Spec.C14.validRaw, Lumina.Spec.C14.validV0, Lumina.Spec.C14.validV255, Bool.or_eq_true,
+    Bool.and_eq_true, beq_iff_eq] at h
+  rcases h with h | h <;> exact h.1.1
+
+theorem parse_eds (h : Nat) (hh : h < 2 ^ 64) (h0 : h ≠ 0) : parse .eds (be 8 h) = some ⟨.eds, h, 0, 0, []⟩ := by
+  unfold parse
+  have e : (be 8 h).take 8 = be 8 h := List.take_of_length_le (by rw [be_length]; exact Nat.le_refl _)
+  simp only [be_length, Kind.size, ne_eq, not_true_eq_false, ↓reduceIte, e, beVal_be 8 h (by simpa using hh), h0,
+    Kind.hasRow, Kind.hasCol, Kind.hasNs, Bool.false_eq_true, Bool.false_and]
+
+theorem parse_row (h r : Nat) (hh : h < 2 ^ 64) (h0 : h ≠ 0) (hr : r < 2 ^ 16) :
+    parse .row (be 8 h ++ be 2 r) = some ⟨.row, h, r, 0, []⟩ := by
+  unfold parse
+  have hl : (be 8 h ++ be 2 r).length = 10 := by simp [be_length]
+  simp only [hl, Kind.size, ne_eq, not_true_eq_false, ↓reduceIte, take_be_append, drop_be_append,
+    Kind.hasRow, Kind.hasCol, Kind.hasNs, Bool.false_eq_true, Bool.false_and]
+  have e2 : (be 2 r).take 2 = be 2 r := List.take_of_length_le (by rw [be_length]; exact Nat.le_refl _)
+  rw [e2, beVal_be 8 h (by simpa using hh), beVal_be 2 r (by simpa using hr)]
+  simp [h0]
+
+theorem drop10 (h r : Nat) (x : Bytes) : (be 8 h ++ be 2 r ++ x).drop 10 = x := by
+  rw [List.drop_append_of_le_length (by simp [be_length])]
+  rw [List.drop_of_length_le (by simp [be_length])]; rfl
+
+theorem parse_sample (h r c : Nat) (hh : h < 2 ^ 64) (h0 : h ≠ 0) (hr : r < 2 ^ 16) (hc : c < 2 ^ 16) :
+    parse .sample (be 8 h ++ be 2 r ++ be 2 c) = some ⟨.sample, h, r, c, []⟩ := by
+  unfold parse
+  have hl : (be 8 h ++ be 2 r ++ be 2 c).length = 12 := by simp [be_length]
+  have e3 := drop10 h r (be 2 c)
+  simp only [hl, Kind.size, ne_eq, not_true_eq_false, ↓reduceIte, e3,
+    Kind.hasRow, Kind.hasCol, Kind.hasNs, Bool.false_eq_true, Bool.false_and]
+  simp only [List.append_assoc, take_be_append, drop_be_append]
+  have e2 : (be 2 c).take 2 = be 2 c := List.take_of_length_le (by rw [be_length]; exact Nat.le_refl _)
+  rw [e2, beVal_be 8 h (by simpa using hh), beVal_be 2 r (by simpa using hr), beVal_be 2 c (by simpa using hc)]
+  simp [h0]
+
+theorem parse_rnd (h r : Nat) (ns : Bytes) (hh : h < 2 ^ 64) (h0 : h ≠ 0) (hr : r < 2 ^ 16)
+    (hns : Lumina.Spec.C14.validRaw ns = true) :
+    parse .rowNsData (be 8 h ++ be 2 r ++ ns) = some ⟨.rowNsData, h, r, 0, ns⟩ := by
+  unfold parse
+  have hl : (be 8 h ++ be 2 r ++ ns).length = 39 := by simp [be_length, validRaw_length ns hns]
+  have e3 := drop10 h r ns
+  simp only [hl, Kind.size, ne_eq, not_true_eq_false, ↓reduceIte, Kind.hasRow, Kind.hasCol, Kind.hasNs,
+    Bool.false_eq_true, Bool.true_and, e3, hns, Bool.not_true]
+  simp only [List.append_assoc, take_be_append, drop_be_append]
+  rw [beVal_be 8 h (by simpa using hh), beVal_be 2 r (by simpa using hr)]
+  simp [h0]
+
+theorem parse_nd (h : Nat) (ns : Bytes) (hh : h < 2 ^ 64) (h0 : h ≠ 0)
+    (hns : Lumina.Spec.C14.validRaw ns = true) :
+    parse .nsData (be 8 h ++ ns) = some ⟨.nsData, h, 0, 0, ns⟩ := by
+  unfold parse
+  have hl : (be 8 h ++ ns).length = 37 := by simp [be_length, validRaw_length ns hns]
+  simp only [hl, Kind.size, ne_eq, not_true_eq_false, ↓reduceIte, Kind.hasRow, Kind.hasCol, Kind.hasNs,
+    Bool.false_eq_true, Bool.true_and, take_be_append, drop_be_append, hns, Bool.not_true]
+  rw [beVal_be 8 h (by simpa using hh)]
+  simp [h0]
+
+theorem back_of_parse (k : Kind) (enc : Bytes) (id : Id) (hp : parse k enc = some id) :
+    (obsDecode (decodeK k enc)).map Prod.fst = some id := by
+  rw [decodeK_eq_parse, hp]; rfl
+
+theorem cidBack_of_parse (k : Kind) (codec code : Nat) (enc : Bytes) (id : Id) (hk : k.cidCodes = some (codec, code))
+    (hp : parse k enc = some id) : obsCid (ofCidK k ⟨1, codec, code, enc⟩) = some id := by
+  rw [ofCidK_eq, hk]
+  simp [hp]
+
+
 end Lumina.Proofs.C15
